@@ -980,6 +980,26 @@ class ViewsRand(ViewsBase):
 
 
 
+class ViewsBig(ViewsBase):
+    """Larger tree sequences (up to 45 nodes, 14 breakpoints): size bounds of the traversal
+    buffers, long sibling lists, deep chains, many roots."""
+    name = "views_big"
+
+    def generate(self, rng, tier):
+        n = 150 if tier == "quick" else 1500
+        for i in range(n):
+            shape = rng.choice(["wide", "deep", "mixed"])
+            desc = gen_ts.random_desc(rng, max_nodes=rng.choice([20, 30, 45]), max_L=rng.choice([6, 14]),
+                                      max_sites=4, metadata=False, individuals=False, populations=False,
+                                      p_internal_sample=rng.choice([0.0, 0.3]),
+                                      p_gap=rng.choice([0.0, 0.2]),
+                                      p_root={"wide": 0.6, "deep": 0.02, "mixed": 0.2}[shape])
+            case = dict(rand_opts(rng, desc), desc=desc)
+            case["other"] = None
+            case["paths"] = ["trees", rng.choice(["reversed", "at_index", "aslist"])]
+            yield case
+
+
 # ----------------------------------------------------------------------------------
 # correspondence with the Coq model (C01.Model evaluated by vm_compute)
 # ----------------------------------------------------------------------------------
@@ -1149,7 +1169,95 @@ class SweepRand(SweepBase):
             yield case
 
 
-FAMILIES = [ViewsTiny, ViewsRand, SweepTiny, SweepRand]
+
+# ----------------------------------------------------------------------------------
+# Python-level views and reverse edge diffs vs the model (model_pyviews)
+# ----------------------------------------------------------------------------------
+
+def observe_pyviews(case):
+    import tskit
+    desc = case["desc"]
+    inv = lattice(desc)
+    ts = gen_ts.build_tables(desc).tree_sequence()
+    kw = tree_kwargs(case)
+    N = ts.num_nodes
+    edges = [[inv[float(l)], inv[float(r)], int(p), int(c)]
+             for l, r, p, c in zip(ts.edges_left, ts.edges_right, ts.edges_parent, ts.edges_child)]
+
+    def dl(**k):
+        out = []
+        for iv, eo, ei in ts.edge_diffs(direction=tskit.REVERSE, **k):
+            out += [[inv[float(iv.left)], inv[float(iv.right)]], [int(e.id) for e in eo], [int(e.id) for e in ei]]
+        return out
+    starts = [None] + list(range(N + 1))
+    trees = []
+    for t in ts.trees(**kw):
+        o = [_ints(t.roots)]
+        for order in ("inorder", "levelorder", "timeasc", "timedesc", "minlex_postorder"):
+            o += [_ints(t.nodes(r, order=order)) for r in starts]
+        o += [_ints(t.leaves(r)) for r in starts]
+        o += [_ints(t.samples(r)) for r in starts]
+        trees.append(o)
+    return {"edges": edges, "obs": [dl(), dl(include_terminal=True)] + trees}
+
+
+class PyViewsBase(SweepBase):
+    shard = 150
+
+    def observe(self, case):
+        return observe_pyviews(case)
+
+    def oracle(self, case, obs):
+        return []
+
+    def coq_check(self, case, obs):
+        desc = case["desc"]
+        ns = "[" + "; ".join("mkNode %s %s" % (cbool(nd[0] & 1), cz(nd[1])) for nd in desc["nodes"]) + "]"
+        es = "[" + "; ".join("mkEdge %s %s %s %s" % tuple(cz(x) for x in e) for e in obs["edges"]) + "]"
+        o = "(mkOpts %s %s %s)" % (cz(case["thr"]), cbool(case["sample_lists"]), clist(case.get("tracked") or []))
+        return "res_eqb zlll_eqb (model_pyviews %s %s %s %s) %s" % (cz(2 * desc["L"]), ns, es, o, clll(obs["obs"]))
+
+    def describe(self, case, obs):
+        d = case["desc"]
+        return {"nodes": len(d["nodes"]), "edges": min(len(d["edges"]), 14), "trees": len(obs["obs"]) - 2,
+                "thr": case["thr"], "sample_lists": case["sample_lists"]}
+
+
+class PyViewsTiny(PyViewsBase):
+    name = "pyviews_tiny"
+
+    def generate(self, rng, tier):
+        scopes = [(2, 2), (3, 2), (3, 3), (4, 2)] if tier == "quick" else [(3, 3), (4, 2), (4, 3)]
+        budget = 400 if tier == "quick" else 2500
+        allc = [(n, L, tv, edges) for n, L in scopes for tv, edges in tiny_descs(n, L)]
+        keep = allc if len(allc) <= budget else rng.sample(allc, budget)
+        for n, L, tv, edges in keep:
+            flags = tuple(1 if rng.random() < 0.75 else 0 for _ in range(n))
+            edges = list(edges)
+            rng.shuffle(edges)
+            desc = mk_desc(L, tv, flags, edges, scale=rng.choice([1, 0.5, 1 / 3]))
+            yield {"desc": desc, "sample_lists": rng.random() < 0.6, "thr": rng.choice([1, 1, 2, 3]),
+                   "tracked": None, "queries": False}
+
+
+class PyViewsRand(PyViewsBase):
+    name = "pyviews_rand"
+
+    def generate(self, rng, tier):
+        n = 400 if tier == "quick" else 3000
+        for i in range(n):
+            desc = gen_ts.random_desc(rng, max_nodes=8, max_L=5, max_sites=0, metadata=False,
+                                      individuals=False, populations=False,
+                                      p_internal_sample=rng.choice([0.0, 0.15, 0.5]),
+                                      p_gap=rng.choice([0.0, 0.15, 0.4]),
+                                      p_root=rng.choice([0.05, 0.2, 0.5]))
+            case = dict(rand_opts(rng, desc), desc=desc)
+            case["tracked"] = None
+            case["queries"] = False
+            yield case
+
+
+FAMILIES = [ViewsTiny, ViewsRand, ViewsBig, SweepTiny, SweepRand, PyViewsTiny, PyViewsRand]
 
 
 NOT_COVERED = [
